@@ -40,7 +40,19 @@ def main():
                         feats.append((l_, t_))
             except Exception:  # noqa
                 pass
-            for sc in tuple({'scalar:a': '1', 'scalar:b': '1', 'scalar:c': '1', 'feat:lead': str(l_), 'feat:trail': str(t_)} for l_, t_ in feats) + ({'scalar:a': '1', 'scalar:b': '1', 'scalar:c': '1'}, {'scalar:a': '2', 'scalar:b': '3', 'scalar:c': '5'},
+            # ... and the counterexample's own abscissae for A and C, realised as the nearest real curve points
+            direct = []
+            try:
+                Q = stubs.BN254_Q
+                vals = sorted(set(int(v) for k, v in dr.items() if 'coord' in k and str(v).isdigit() and 0 < int(v) < Q), key=lambda v: v.bit_length())
+                for c in vals[:5]:          # whichever coordinate the model made special: try its value as the abscissa of A and of C
+                    for big_y in ('0', '1'):
+                        direct.append({'scalar:a': '1', 'scalar:b': '1', 'scalar:c': '1', 'coord:ax': str(c), 'coord:cx': str(c), 'coord:ay_large': big_y, 'coord:cy_large': big_y})
+                # a coordinate in [r, q) exists only as an ordinate: -G1 = (1, q-2)
+                direct.append({'scalar:a': '1', 'scalar:b': '1', 'scalar:c': '1', 'coord:ax': '1', 'coord:ay_large': '1', 'coord:cx': '1', 'coord:cy_large': '1'})
+            except Exception:  # noqa
+                pass
+            for sc in tuple(direct) + tuple({'scalar:a': '1', 'scalar:b': '1', 'scalar:c': '1', 'feat:lead': str(l_), 'feat:trail': str(t_)} for l_, t_ in feats) + ({'scalar:a': '1', 'scalar:b': '1', 'scalar:c': '1'}, {'scalar:a': '2', 'scalar:b': '3', 'scalar:c': '5'},
                        {'scalar:a': '1', 'scalar:b': '123456789', 'scalar:c': '2'}, {'scalar:a': '987654321987654321', 'scalar:b': '5', 'scalar:c': '1'}):
                 failed, panicked, out = driver.replay_native('prover', 'prover', HARNESS, e, sc)
                 if (r.status == 'assert' and msg in failed) or (r.status == 'panic' and panicked):
@@ -48,7 +60,7 @@ def main():
                     break
             if hit:
                 draws = driver.model_draws(r.state, r.info['model']) if r.status == 'assert' else {}
-                run.violation('%s: %s -- reproduced natively on the real proof A=%s*G1, B=%s*G2, C=%s*G1' % (e, msg, hit[0]['scalar:a'], hit[0]['scalar:b'], hit[0]['scalar:c']),
+                run.violation('%s: %s -- reproduced natively on a real proof (%s)' % (e, msg, ', '.join('%s=%s' % (k, v if len(str(v)) < 24 else str(v)[:20] + '...') for k, v in sorted(hit[0].items()))),
                               {'harness': e, 'assertion': msg, 'symbolic_counterexample_coordinates': draws, 'native_scalars': hit[0], 'native_output_tail': hit[1][-1200:]}, key='C10:' + msg[:50])
             else:
                 run.inconclusive.append('%s: "%s" failed symbolically but not on the native sample proofs' % (e, msg[:80]))
